@@ -53,6 +53,8 @@ def gen_world(rng, fmt=None, apdep=None, n_models=(1, 8), n_ap=(1, 5), n_wav=(5,
                      'desc': bool(filt_desc and rng.random() < 0.5),
                      'zero_edges': rng.random() < 0.3} for j in range(nf)]
     w['ext_slope'] = round(rng.uniform(1.0, 2.0), 3)
+    # unit in which the package stores its fluxes (per-file: any supported family; cube: a flux density)
+    w['flux_unit'] = rng.choice(['mJy', 'mJy', 'Jy', 'ergs/cm^2/s', 'erg/s']) if w['dtype'] == 'f8' else 'mJy'
     w['ext_n'] = rng.choice([3, 8, 40])
     return w
 
@@ -185,13 +187,15 @@ class World(object):
                 if spec['subdir']:
                     sub = os.path.join(sub, nm[:spec['subdir']])
                     os.makedirs(sub, exist_ok=True)
-                write_sed_file(os.path.join(sub, nm + '_sed' + ext), nm, w, self.aps, v, e, dtype=self.dtype)
+                write_sed_file(os.path.join(sub, nm + '_sed' + ext), nm, w, self.aps, v, e, dtype=self.dtype,
+                               unit=spec.get('flux_unit', 'mJy'))
             self.write_params(d, self.perm if perm is None else perm, gz=gz)
         else:
             w, v, e = self.wav, self.val, self.unc
             if not spec['asc']:
                 w, v, e = w[::-1], v[:, :, ::-1], e[:, :, ::-1]
-            write_cube_file(os.path.join(d, 'flux.fits'), self.names, w, self.aps, v, e, dtype=self.dtype)
+            write_cube_file(os.path.join(d, 'flux.fits'), self.names, w, self.aps, v, e, dtype=self.dtype,
+                            unit='Jy' if spec.get('flux_unit') == 'Jy' else 'mJy')
             self.write_params(d, np.arange(self.n_models), gz=gz)
         write_conf(d, self.apdep, fmt, spec['logd_step'], spec['subdir'] if fmt == 1 else 0)
         return d
@@ -204,7 +208,24 @@ class World(object):
                      [self.names[i] for i in perm], {k: v[perm] for k, v in self.pars.items()})
 
 
+def _from_mjy(a, unit, wav, distance_cm):
+    """values given in mJy -> the unit the file stores (the reference model always thinks in mJy)"""
+    a = np.asarray(a, float)
+    if unit == 'mJy':
+        return a
+    if unit == 'Jy':
+        return a / 1000.
+    f = a * 1e-26 * nu_of(wav)             # erg / cm^2 / s
+    if unit == 'ergs/cm^2/s':
+        return f
+    if unit == 'erg/s':
+        return f * distance_cm ** 2
+    raise ValueError(unit)
+
+
 def write_sed_file(path, name, wav, aps, flux, err, dtype='f8', unit='mJy', distance_cm=KPC_CM):
+    flux = _from_mjy(flux, unit, wav, distance_cm)
+    err = _from_mjy(err, unit, wav, distance_cm)
     h0 = fits.PrimaryHDU()
     h0.header['MODEL'] = name
     h0.header['DISTANCE'] = distance_cm
@@ -228,6 +249,8 @@ def write_sed_file(path, name, wav, aps, flux, err, dtype='f8', unit='mJy', dist
 
 
 def write_cube_file(path, names, wav, aps, val, unc, dtype='f8', unit='mJy', distance_cm=KPC_CM):
+    val = _from_mjy(val, unit, wav, distance_cm)
+    unc = None if unc is None else _from_mjy(unc, unit, wav, distance_cm)
     h0 = fits.PrimaryHDU(data=np.ones(len(names), dtype=int))
     h0.header['DISTANCE'] = distance_cm
     h0.header['NWAV'] = len(wav)
